@@ -92,7 +92,26 @@ def corpus():
     yield Case('ctx -', ['s 0 p', 'va 0 1,1 -', 'act', 'vs 0 1', 'va 0 1 -', 'act', 'c 1 0', 'vs 1 1', 'act',
                          's 2 p', 'g 3 0,2 0-1 0', 'vs 4 1', 'act'], tags=('hand-made', 'wrong-entry-point'))
 
+def scale():
+    """wrapped structures with far more members than the random trees have: 150 and 1000 singletons in one collection /
+    one graph (a percentage below 1 %, counts past 2^8), queried after 1, 2 and n−1 activations"""
+    for n in (150, 1000):
+        ops = [f's {i} p' for i in range(n)]
+        hs = ','.join(map(str, range(n)))
+        ops.append(f'c {n} {hs}')                                   # handle n: collection wrapper
+        ops.append(f'g {n + 1} {hs} {",".join(f"0-{j}" for j in range(1, n))} 0')   # handle n+1: graph wrapper (fan)
+        ops.append(f'c {n + 2} {n},{n + 1}')                        # handle n+2: wrapper over the two wrappers
+        ops += ['act', f'agg {n}', f'agg {n + 1}', f'agg {n + 2}']
+        ops += [f'vs {n - 3} 1', 'act', f'agg {n}', f'agg {n + 1}', f'agg {n + 2}']
+        ops += ['vs 0 1', f'agg {n}', f'agg {n + 1}', f'vs {n - 3} 0', f'agg {n}', f'agg {n + 1}', f'agg {n + 2}', 'vs 0 0', 'act']
+        if n <= 200:
+            ops += [f'vs {i} 1' for i in range(n - 1)] + ['act', f'agg {n}', f'agg {n + 1}', f'agg {n + 2}',
+                                                           f'vs {n - 1} 1', f'agg {n}', f'agg {n + 1}']
+        yield Case('ctx -', ops, tags=('scale',))
+
+
 def generate(rng, tier):
+    yield from scale()
     n = 220 if tier == 'quick' else 10000
     for k in range(n):
         yield one_case(rng, tier, 0.2 if k % 5 == 4 else 0.0)
